@@ -114,7 +114,7 @@ def run_C16(res, tier, seed, t_end, bad):
     for p, s in Fn.glob_cases_random(rng, budget(tier, 6000, 60000)):
         cases.setdefault(p, []).append(s)
     corpus = [(b'h[a-c]*o', [b'hbllo', b'hdllo']), (b'[^a]?\\*', [b'bc*', b'ac*']), (b'[', [b'a', b'[']), (b'k\\', [b'k\\', b'k']),
-              (b'[]', [b'a']), (b'[^]', [b'a']), (b'[a-', [b'a', b'-']), (b'*', [b'', b'x']), (b'**a', [b'a', b'ba']), (b'[\\', [b'\\'])]
+              (b'[]', [b'a', b'\n']), (b'a[]', [b'a\n', b'a']), (b'[^]', [b'a', b'\n']), (b'a?', [b'a\n']), (b'a*', [b'a\n\n']), (b'[a-', [b'a', b'-']), (b'*', [b'', b'x']), (b'**a', [b'a', b'ba']), (b'[\\', [b'\\'])]
     res.findings.extend(Fn.glob_check(m, corpus + sorted(cases.items()), out))
     if tier == 'thorough' and not res.findings:
         import itertools
